@@ -88,7 +88,7 @@ func newFreeClient(id int, pub *stream.EventPublisher, sj *subject, strict bool,
 	c := &freeClient{id: id, subj: sj, strict: strict, token: token}
 	c.mat = submatview.NewLocalMaterializer(submatview.LocalMaterializerDeps{
 		Backend:     &countingBackend{pub: pub, c: c},
-		ACLResolver: allowAll{},
+		ACLResolver: tokenACL{},
 		Deps:        submatview.Deps{View: sj.newView(), Logger: hclog.NewNullLogger(), Request: sj.request(token)},
 	})
 	c.start()
@@ -270,7 +270,7 @@ func freeRun(run *core.Run, rng *core.Rand, name string, rounds, opsPerProposer 
 		cs := append([]*freeClient(nil), clients...)
 		cmu.Unlock()
 		for _, c := range cs {
-			_, want := c.subj.direct(st)
+			_, want := c.subj.direct(st, authzFor(c.token))
 			ctx, cancel := context.WithTimeout(context.Background(), 60*time.Second)
 			var got string
 			var idx uint64
